@@ -1,4 +1,4 @@
-SOURCE_COMMITS = ['2a82dd5', '23b3277', 'd11a4bc', '0ff938d', 'f5c3f96', '4d27d01', '24cde5a', 'eabce87', '6660817', '6b4eb47', '2cb23c1', '3b6902e', '3a1ed2d', '294bb7e']
+SOURCE_COMMITS = ['2a82dd5', '23b3277', 'd11a4bc', '0ff938d', 'f5c3f96', '4d27d01', '24cde5a', 'eabce87', '6660817', '6b4eb47', '2cb23c1', '3b6902e', '3a1ed2d', '294bb7e', 'fce13cd']
 NOTES = ('Exit codes of ./check: 0 all obligations discharged; 1 violation (VIOLATION line); '
          '2 undecided (solver unknown / extraction failure / contract binding lost); 3 checker crash. '
          'See DESIGN.md.')
@@ -157,4 +157,14 @@ CLAIMED = {
    note='Trusted math: Kronecker factorisation of Sylvester matrices, H H = d I, Parseval; einsum/reshape/pad/take semantics; '
         'ceil(log2 s) exact for s <= 2^24; reals for float32. Bounded (native): matrix identity to 2^10 (2^14 thorough), '
         'different keys give different rotations.'),
+ 'C11': dict(
+   text='Quantizers executed at an arbitrary coordinate with amin/amax/std/sums as symbols constrained by their definitions; '
+        'the uniform draw u in [0,1) is universally quantified (grid point, one-step error, range, pass-through of constant / '
+        'on-grid / zero vectors hold for EVERY u), expectations by the rule E[where(u > t, a, b)] = a(1-c) + bc; reals with an '
+        'explicit NaN flag for 0/0; separate float32 (z3/cvc5 FP theory) obligations for NaN/Inf freedom; DRIVE scale; leaf '
+        'loops of the *_pytree functions by invariants (leaf j uses split(rng, n)[j]); the four aggregators: aggregate is '
+        'tree_mean of (quantize(params_i, i-th round key), weight_i), bit formula, key plumbing (state key on the split[0] spine).',
+   note='Trusted: LEM-UNIF, definitions of the reductions, IEEE-754 RNE for float32 (XLA CPU flushes subnormals), |values| <= 2^100 '
+        "for fp.usq.finite. Known finding D-11b: range overflow gives NaN. Not covered: arithmetic-coding bit counts, "
+        'statistical independence (bounded native sampling).'),
 }
